@@ -50,7 +50,7 @@ var noEffectPrefixes = []string{
 	"log.Print", "fmt.Sprint", "fmt.Errorf", "fmt.Print", "fmt.Fprint", "errors.New", "strings.", "strconv.", "bytes.Equal", "bytes.Compare", "bytes.Index", "bytes.Contains", "bytes.HasPrefix", "bytes.HasSuffix",
 	"math.", "sync/atomic.", "unicode.", "unicode/utf8.", "time.", "os.Getenv", "runtime.", "sort.SearchInts", "slices.Contains", "slices.Index", "(*sync.Mutex).", "(*sync.RWMutex).",
 	"(*sync.WaitGroup).Wait", "path.", "path/filepath.", "regexp.MustCompile", "(*regexp.Regexp).Match", "(*regexp.Regexp).Find", "hash/crc32.", "crypto/md5.",
-	"(*github.com/schollz/progressbar/v3.ProgressBar).", "github.com/schollz/progressbar/v3.",
+	"(*github.com/schollz/progressbar/v3.ProgressBar).", "github.com/schollz/progressbar/v3.", "obiiter.RegisterAPipe", "obiiter.UnregisterPipe", "obiiter.WaitForLastPipe",
 }
 
 func (v *Verifier) isNoEffect(name string) bool {
